@@ -979,6 +979,10 @@ def plan(run):
         c2 = gen_config(rng, 2, rng.randint(10, 16), cell="cubic", ppp=[0, 0], Lrange=(9.0, 12.0), spread=4.5, minsep=0.8)
         add("neighbors", c3, {"mode": "nn", "param": 4}, kinds=["rot"], reps=reps)
         add("boo3d", c3, {"l": rng.choice([4, 6]), "mode": "nn", "param": rng.randint(4, 8)}, kinds=["rot", "relabel", "translate", "axes"], reps=reps)
+        if _ == 0:
+            # every degree of the library's own closed-form table (and two delegated ones): q_l, ŵ_l under rotation / axis permutation
+            for ll in (1, 2, 3, 5, 7, 8, 9, 10, 11, 12):
+                add("boo3d", c3, {"l": ll, "mode": "nn", "param": rng.randint(4, 8)}, kinds=["rot", "axes"], reps=1)
         add("boo2d", c2, {"l": rng.choice([4, 6]), "mode": "nn", "param": rng.randint(3, 6)}, kinds=["rot", "relabel", "translate", "axes"], reps=reps)
         add("boo2d", c2, {"l": rng.choice([3, 5]), "mode": "nn", "param": rng.randint(3, 6)}, kinds=["rot", "axes"], reps=reps)
         add("tetra", c3, {}, kinds=["rot", "relabel", "translate", "axes"], reps=reps)
